@@ -11,12 +11,14 @@ from vlib import harness
 
 ID = "C05"
 LEVEL = "exploration"
-TECHNIQUE = "runtime monitor: reference tree-walk model vs children()/parent()/parents() on generated parent-link graphs; line-budget termination monitor"
+TECHNIQUE = "runtime monitor: reference tree-walk model vs children()/parent()/parents() on generated parent-link graphs; line-budget termination monitor; live kernel: real process tree / fork / same-tick children vs an independent /proc reader"
 RULE = ("one case = (process table with ppid function + start ticks, caller, optional mid-walk vanish, optional recycled "
         "caller); all tables with <=4 processes x every ppid function over {unlisted,1..n} x 3 start orders x every caller "
         "are enumerated (exhaustive); larger tables (<=40 procs) random. children(), children(recursive=True), parent(), "
         "parents() are compared with a 20-line reference written from the statement. non-trivial = the graph has a cycle, a "
-        "self-loop, a child older than the caller, an unlisted parent, a mid-walk vanish or a recycled caller; distinct by case hash")
+        "self-loop, a child older than the caller, an unlisted parent, a mid-walk vanish or a recycled caller; distinct by case hash. Live part (real kernel): a 5-process tree of real children compared "
+        "with an independent reader of /proc/*/stat before and after an intermediate node is killed (re-parenting), Process objects "
+        "made before os.fork() asked from the forked child, and children started within the clock tick their parent was created in")
 ASSUMPTIONS = [
     "result order is not promised; results are compared as sets plus a no-duplicates check",
     "parents() is asserted only when the reference chain is finite (the statement promises termination for children() only); an infinite chain is cut by the line budget and not judged",
@@ -361,12 +363,214 @@ def gen_random(rng):
     return case
 
 
+# ---- live kernel: a real process tree, fork from a process that holds Process objects, same-tick children --------
+
+TREE_SCRIPT = r"""
+import os, subprocess, sys, time
+depth = int(sys.argv[1])
+kids = []
+if depth > 0:
+    for _ in range(2 if depth == 2 else 1):
+        kids.append(subprocess.Popen([sys.executable, "-S", "-c", open(sys.argv[2]).read(), str(depth - 1), sys.argv[2]]))
+print("NODE", os.getpid(), os.getppid(), flush=True)
+while True:
+    time.sleep(1000)
+"""
+
+
+def live_ppid_map():
+    """Independent reader of the kernel's table: pid -> (ppid, starttime ticks)."""
+    import os
+    out = {}
+    for name in os.listdir("/proc"):
+        if not name.isdigit():
+            continue
+        try:
+            with open(f"/proc/{name}/stat", "rb") as f:
+                data = f.read()
+        except OSError:
+            continue
+        fields = data[data.rfind(b")") + 2:].split()
+        out[int(name)] = (int(fields[1]), int(fields[19]))
+    return out
+
+
+def run_live(shard, acc):
+    import json
+    import os
+    import signal
+    import subprocess
+    import tempfile
+    import time
+    ps = setup()["ps"]
+    ps.PROCFS_PATH = "/proc"          # this shard talks to the real kernel (own worker process)
+    env = {k: v for k, v in os.environ.items() if k != "LD_PRELOAD"}
+    viols = []
+    tmp = tempfile.mkdtemp(prefix="c05live_")
+    script = os.path.join(tmp, "node.py")
+    with open(script, "w") as f:
+        f.write(TREE_SCRIPT)
+    root = subprocess.Popen([sys.executable, "-S", script, "2", script], env=env, stdout=subprocess.DEVNULL)
+    try:
+        # wait until the tree (root + 2 children + 2 grandchildren) is up
+        me = os.getpid()
+        deadline = time.time() + 30
+        while time.time() < deadline:
+            m = live_ppid_map()
+            sub = ref_children({p: v for p, v in m.items()}, root.pid, True) if root.pid in m else set()
+            if len(sub) >= 4:
+                break
+            time.sleep(0.05)
+        m = live_ppid_map()
+        nodes = sorted({root.pid} | ref_children(m, root.pid, True))
+        acc.extra["live_tree_size"] = len(nodes)
+
+        def compare(tag):
+            m = live_ppid_map()
+            for pid in nodes:
+                if pid not in m:
+                    continue
+                pr = ps.Process(pid)
+                for rec in (False, True):
+                    acc.count("children_calls_checked")
+                    acc.count("live_children_calls_checked")
+                    got = [c.pid for c in pr.children(recursive=rec)]
+                    m2 = live_ppid_map()
+                    want1, want2 = ref_children(m, pid, rec) & set(nodes), ref_children(m2, pid, rec) & set(nodes)
+                    g = set(got) & set(nodes) if pid != me else set(got) & set(nodes)
+                    if len(got) != len(set(got)) or pid in got:
+                        viols.append(("live:children_duplicates_or_self", f"{tag}: pid {pid} rec={rec} got {got}"))
+                    if g != want1 and g != want2:
+                        viols.append(("live:children_wrong", f"{tag}: pid {pid} rec={rec} got {sorted(g)} want {sorted(want1)}"))
+                acc.count("live_parent_calls_checked")
+                par = pr.parent()
+                if par is None or par.pid != m[pid][0]:
+                    viols.append(("live:parent_wrong", f"{tag}: pid {pid} parent() -> {par} want pid {m[pid][0]}"))
+                chain = [x.pid for x in pr.parents()]
+                want = []
+                cur = pid
+                while cur in m and m[cur][0] in m and m[cur][0] != cur and len(want) < 64:
+                    cur = m[cur][0]
+                    want.append(cur)
+                if chain != want:
+                    viols.append(("live:parents_wrong", f"{tag}: pid {pid} parents() -> {chain} want {want}"))
+        compare("tree")
+        # an intermediate node dies: its children are re-parented (to init / the nearest subreaper)
+        mid = [p for p in nodes if live_ppid_map().get(p, (None,))[0] == root.pid][0]
+        stale_mid = ps.Process(mid)
+        os.kill(mid, signal.SIGKILL)
+        t0 = time.time()
+        while time.time() - t0 < 10:
+            st = live_ppid_map().get(mid)
+            if st is None:
+                break
+            time.sleep(0.05)           # a zombie until the root reaps it - the root never does: stays a zombie
+            if time.time() - t0 > 1:
+                break
+        nodes = [p for p in nodes if p != mid]
+        compare("after_reparenting")
+        acc.count("live_reparenting_checked")
+        # --- fork from a process that already holds Process objects for itself
+        p_none = ps.Process()
+        p_pid = ps.Process(os.getpid())
+        orig_pid, orig_ppid = os.getpid(), os.getppid()
+        r, wfd = os.pipe()
+        child = os.fork()
+        if child == 0:
+            try:
+                os.close(r)
+                out = {}
+                for tag, p in (("none", p_none), ("pid", p_pid)):
+                    par = p.parent()
+                    out[tag] = dict(pid=p.pid, ppid=p.ppid(), parent=None if par is None else par.pid,
+                                    parents=[x.pid for x in p.parents()][:2])
+                fresh = ps.Process()
+                fp = fresh.parent()
+                out["fresh"] = dict(pid=fresh.pid, ppid=fresh.ppid(), parent=None if fp is None else fp.pid)
+                out["kids_of_orig"] = sorted(c.pid for c in p_pid.children())
+                os.write(wfd, json.dumps(out).encode())
+            except BaseException as e:  # noqa: BLE001
+                os.write(wfd, json.dumps(dict(error=repr(e))).encode())
+            finally:
+                os._exit(0)
+        os.close(wfd)
+        data = b""
+        while True:
+            chunk = os.read(r, 65536)
+            if not chunk:
+                break
+            data += chunk
+        os.close(r)
+        os.waitpid(child, 0)
+        res = json.loads(data or b"{}")
+        acc.count("live_fork_scenarios_checked")
+        if "error" in res or not res:
+            viols.append(("live:fork_scenario_exception", str(res)))
+        else:
+            for tag in ("none", "pid"):
+                d = res[tag]
+                if d["pid"] != orig_pid or d["ppid"] != orig_ppid or d["parent"] != orig_ppid or d["parents"][:1] != [orig_ppid]:
+                    viols.append(("live:parent_wrong_after_fork", f"object made before fork() ({tag}), asked in the forked child: {d}; "
+                                                                  f"the object's process is {orig_pid}, its parent {orig_ppid}"))
+            d = res["fresh"]
+            if d["pid"] != child or d["ppid"] != orig_pid or d["parent"] != orig_pid:
+                viols.append(("live:parent_wrong_after_fork", f"Process() made in the forked child {child}: {d}"))
+            if child not in res["kids_of_orig"]:
+                viols.append(("live:children_wrong", f"children() of the forking process, asked in the child: {res['kids_of_orig']} lacks {child}"))
+        # --- children started within the tick their parent was created in
+        same_tick = 0
+        for _ in range(shard.get("ticks", 25)):
+            sh = subprocess.Popen(["/bin/sh", "-c", "sleep 60 & wait"], env=env)
+            try:
+                t1 = time.time()
+                kid = None
+                while time.time() - t1 < 5 and kid is None:
+                    m = live_ppid_map()
+                    ks = [p for p, (pp, _s) in m.items() if pp == sh.pid]
+                    kid = ks[0] if ks else None
+                if kid is None:
+                    continue
+                m = live_ppid_map()
+                if sh.pid in m and kid in m and m[kid][1] == m[sh.pid][1]:
+                    same_tick += 1
+                acc.count("children_calls_checked")
+                got = [c.pid for c in ps.Process(sh.pid).children()]
+                if kid not in got:
+                    viols.append(("live:children_wrong:same_tick" if m.get(kid, (0, 0))[1] == m.get(sh.pid, (0, 1))[1] else "live:children_wrong",
+                                  f"sh {sh.pid} (start {m.get(sh.pid)}) has child {kid} (start {m.get(kid)}), children() -> {got}"))
+            finally:
+                for p in ([kid] if kid else []) + [sh.pid]:
+                    try:
+                        os.kill(p, signal.SIGKILL)
+                    except OSError:
+                        pass
+                sh.wait()
+        acc.count("live_same_tick_children_seen", same_tick)
+    finally:
+        m = live_ppid_map()
+        for p in sorted(ref_children(m, root.pid, True) | {root.pid}) if root.pid in m else [root.pid]:
+            try:
+                os.kill(p, signal.SIGKILL)
+            except OSError:
+                pass
+        for p in nodes if "nodes" in dir() else []:
+            try:
+                os.kill(p, signal.SIGKILL)
+            except OSError:
+                pass
+        root.wait()
+        import shutil
+        shutil.rmtree(tmp, ignore_errors=True)
+    acc.case(dict(kind="live"), True, viols)
+
+
 def plan(tier, seed):
     nrand = 20000 if tier == "quick" else 200000
     nparts = 16 if tier == "quick" else 48
     shards = [dict(kind="small", part=i, parts=nparts) for i in range(nparts)]
     for s, c in harness.split_range(nrand, nparts):
         shards.append(dict(kind="rand", seed=seed, start=s, count=c))
+    shards.append(dict(kind="live", ticks=25 if tier == "quick" else 200))
     return shards
 
 
@@ -393,7 +597,12 @@ def run_shard(shard):
     elif k == "rand":
         for i in range(shard["start"], shard["start"] + shard["count"]):
             run_case(gen_random(harness.rng_for(shard["seed"], "c05", i)), acc)
+    elif k == "live":
+        run_live(shard, acc)
     elif k == "cases":
         for case in shard["cases"]:
-            run_case(case, acc)
+            if case.get("kind") == "live":
+                run_live(dict(ticks=25), acc)
+            else:
+                run_case(case, acc)
     return acc.result()
